@@ -234,6 +234,37 @@ Definition callback_classes_ok (u : uses_tables) : bool :=
                                      else negb mk && forallb (fun m => negb (snd m)) ms
                     end) (u_callback_classes u).
 
+(* the wrapper objects the base class builds (plain_distance, kernel_distance) forward every call to the member
+   function of the role of the callback they wrap: for each initialiser  slot := W(<callback slot s>)  of the
+   implementation base class, every member of W calls only  role_function (slot_role s)  on the wrapped callback *)
+Fixpoint find_wrapper (ws : list (string * list (string * list string))) (w : string)
+  : option (list (string * list string)) :=
+  match ws with
+  | [] => None
+  | (n, tb) :: r => if String.eqb n w then Some tb else find_wrapper r w
+  end.
+
+Definition wrapper_init_ok (u : uses_tables) (init : string * expr) : bool :=
+  match init with
+  | (slot, EWrap w (EId s)) =>
+    match find_wrapper (u_wrappers u) w, slot_role s, slot_role slot with
+    | Some tb, Some r, Some r' =>
+      kind_eqb r r' &&
+      negb (match tb with [] => true | _ => false end) &&
+      forallb (fun mc => negb (match snd mc with [] => true | _ => false end) &&
+                         forallb (String.eqb (role_function r)) (snd mc)) tb
+    | _, _, _ => false
+    end
+  | (_, EWrap _ _) => false
+  | _ => true
+  end.
+
+Definition wrappers_ok (t : chain_tables) (u : uses_tables) : bool :=
+  match find_class (t_classes t) (t_impl_class t) with
+  | Some c => forallb (wrapper_init_ok u) (c_inits c)
+  | None => false
+  end.
+
 (* "iterators are dereferenced only to pass values to callbacks" *)
 Definition derefs_ok (u : uses_tables) : bool := forallb (fun d => snd d) (u_derefs u).
 
@@ -248,7 +279,8 @@ Definition with_trait (u : uses_tables) (name trait : string) : uses_tables :=
   {| u_trait_fields := u_trait_fields u; u_traits := u_traits u; u_method_inits := u_method_inits u;
      u_guards := u_guards u; u_base_refs := u_base_refs u; u_base_unguarded := u_base_unguarded u;
      u_methods := map (retrait name trait) (u_methods u); u_dispatched := u_dispatched u;
-     u_callback_classes := u_callback_classes u; u_deref_files := u_deref_files u; u_derefs := u_derefs u |}.
+     u_callback_classes := u_callback_classes u; u_wrappers := u_wrappers u;
+     u_deref_files := u_deref_files u; u_derefs := u_derefs u |}.
 
 Definition uses_before_F13 (u : uses_tables) : uses_tables := with_trait u "ManifoldSculpting" "RequiresFeatures".
 
